@@ -359,3 +359,22 @@ Proof.
 Qed.
 Print Assumptions C19_restart_instance.
 
+(* ------------------------------------------------------------------------------------------
+   Known finding K3 inside the model (DESIGN.md 12.10). `XCallMod` (Model/ModSvc.v) is the
+   module-service branch of MsgCallService, executed by `xstep` on top of `pstep`; exclusion
+   X-K3 is "the history contains no XCallMod" (`k3_free`).  The statements below are refuted /
+   proved in Proofs/K3.v on concrete reachable witnesses (corpus history W10) by vm_compute. *)
+From Coq Require Import List ZArith Bool Lia.
+From SVC Require Import Base.AMap Base.Res Base.Dec Model.Types Model.Pricing Model.Handlers Model.EndBlock Model.Step Model.ParamStep Model.ModSvc Model.Genesis Proofs.Inv Proofs.ParamChange Proofs.K3.
+Import ListNotations.
+Open Scope Z_scope.
+
+Theorem C19_K3_zero_height_export_fails_refuted :
+  exists (cfg : Params) (s : State) (o : XOp) (s' : State),
+           wf_cfg cfg /\
+           Reach cfg s /\
+           is_callmod o = true /\
+           xstep (cfg, s) o = (cfg, s', ROk) /\
+           prep_zero_height s <> None /\ prep_zero_height s' = None /\ zero_height_export cfg s' = None.
+Proof. exact K3.K3_zero_height_export_fails_refuted. Qed.
+Print Assumptions C19_K3_zero_height_export_fails_refuted.
